@@ -156,5 +156,16 @@ class C12(Prop):
             k = rng.range(3, 6) if rng.chance(3, 4) else rng.range(7, 40)
             s = "".join(rng.choice(A) for _ in range(k))
             out.append(Case("lex " + C.hexs(s), "random", s))
-            pass
+            if rng.chance(1, 3):
+                out.append(Case("tree " + C.hexs(s), "random-tree", s))
+        # the parser half: every sequence of up to four (quick) / five (thorough) tokens over a
+        # token alphabet covering every branch of the grammar (blanks in every position, open
+        # and closed groups, calls, casts, escapes, operators, stray closers) must give a tree
+        # whose leaves are exactly the lexer's tokens
+        TOK = [" ", "1", "a", "(", ")", ",", "+", "*", "^", "to", "{", "}", "%", "m", "f(", "**", "-2", "  "]
+        maxt = 4 if tier == "quick" else 5
+        for k in range(1, maxt + 1):
+            for tup in itertools.product(TOK, repeat=k):
+                s = "".join(tup)
+                out.append(Case("tree " + C.hexs(s), f"tokens-{k}", s))
         return out
